@@ -122,12 +122,12 @@ var ErrInjected = errors.New("injected write fault")
 
 // Fault kinds.
 const (
-	FaultNone      = iota
-	FaultOnce      // error at call k only
-	FaultSticky    // error at call k and ever after
-	FaultShortErr  // short count + io.ErrShortWrite at k
-	FaultShortNil  // short count + nil error at k
-	FaultZeroNil   // 0 bytes accepted + nil error at k
+	FaultNone     = iota
+	FaultOnce     // error at call k only
+	FaultSticky   // error at call k and ever after
+	FaultShortErr // short count + io.ErrShortWrite at k
+	FaultShortNil // short count + nil error at k
+	FaultZeroNil  // 0 bytes accepted + nil error at k
 	NumFaultKinds
 )
 
